@@ -441,17 +441,22 @@ pub fn record_c10(rec: &mut Recorder, seed: u64, thorough: bool) {
                 let mut s2: lightmotif::seq::StripedSequence<A, U32> = pli.stripe(A::syms(&rc_ranks));
                 // every other pair of sequences was used with a shorter motif before (look-ahead rows added in two steps)
                 if it % 2 == 0 && m >= 3 { s1.configure_wrap(1 + it % (m - 2)); s2.configure_wrap(1 + (it / 2) % (m - 2)); }
+                // the single-position entry point, on sequences holding FEWER look-ahead rows than the motif needs
+                // (score_position indexes by position and does not depend on them)
+                let n = if ranks.len() >= m { ranks.len() - m + 1 } else { 0 };
+                let p1: Vec<Value> = (0..n).map(|i| grid(sm.score_position(&s1, i), 2)).collect();
+                let p2: Vec<Value> = (0..n).map(|i| grid(rcm.score_position(&s2, i), 2)).collect();
                 s1.configure(&sm);
                 s2.configure(&rcm);
                 let o1: Vec<Value> = sm.score(&s1).unstripe().iter().map(|&x| grid(x, 2)).collect();
                 let o2: Vec<Value> = rcm.score(&s2).unstripe().iter().map(|&x| grid(x, 2)).collect();
-                (rc_ranks, o1, o2)
+                (rc_ranks, o1, o2, p1, p2)
             });
             rec.reset(); rec.class("rc_score");
             rec.nontrivial(&(pssm.clone(), ranks.clone()));
             rec.emit(match r {
-                Ok((s2, o1, o2)) => json!({"ev":"rc_score","m":pssm,"seq":ranks,"seq2":s2,"o1":o1,"o2":o2,"ret":"ok"}),
-                Err(msg) => json!({"ev":"rc_score","m":pssm,"seq":ranks,"seq2":[],"o1":[],"o2":[],"ret":"panic","msg":msg}),
+                Ok((s2, o1, o2, p1, p2)) => json!({"ev":"rc_score","m":pssm,"seq":ranks,"seq2":s2,"o1":o1,"o2":o2,"p1":p1,"p2":p2,"ret":"ok"}),
+                Err(msg) => json!({"ev":"rc_score","m":pssm,"seq":ranks,"seq2":[],"o1":[],"o2":[],"p1":[],"p2":[],"ret":"panic","msg":msg}),
             });
         }
     }
